@@ -474,7 +474,7 @@ func Run(c *vl.Ctx) {
 	e := sched.NewEngine(c, 16, false)
 	fmt.Print(e.Report)
 	if c.Quick() {
-		c.SetBudget(time.Since(c.Start) + 90*time.Second)
+		c.SetBudget(time.Since(c.Start) + 300*time.Second)
 	} else {
 		c.SetBudget(time.Since(c.Start) + 13*time.Minute)
 	}
